@@ -356,6 +356,12 @@ func (se *SessionExecutor) preBuildUnshardPlan(reqCtx *util.RequestContext, db s
 		return nil, false
 	}
 
+	// the checks above only look at one token per FROM/INTO/SET: make sure no other word of
+	// the statement names a sharded table before skipping the parser
+	if isUnshardPlan && plan.HasShardTableToken(tokens, rt) {
+		isUnshardPlan = false
+	}
+
 	if isUnshardPlan {
 		// check databases and tables in sql
 		p, err := plan.PreCreateUnshardPlan(sql, phyDBs, ruleDB)
